@@ -145,6 +145,14 @@ Theorem C24_ts_recorded_exact : forall k rate pts i,
 Proof. exact ts_written_exact. Qed.
 Print Assumptions C24_ts_recorded_exact.
 
+(* RTMP writer path, branches with one timestamp per frame (AC-3, MPEG-4 Audio, Opus): the message timestamp is the exact
+   conversion to nanoseconds of the frame's position = unit timestamp + lengths of the earlier frames *)
+Theorem C24_rtmp_frame_exact : forall rate pts adv,
+  1 <= rate <= two32 -> in_int64 (pts + adv) -> in_int64 (conv (pts + adv) rate nanos) ->
+  protocols_rtmp__timestampToDuration (wrap64 (pts + adv)) rate = conv (pts + adv) rate nanos.
+Proof. exact dur_frame_exact. Qed.
+Print Assumptions C24_rtmp_frame_exact.
+
 Example C24_ts_written_example :
   ts_written protocols_mpegts__multiplyAndDivide TsAC3 44100 (-1099511627776 - 777) 3 = -2243901273357 /\
   conv (frame_pos TsAC3 (-1099511627776 - 777) 3) 44100 ts_rate = -2243901273357.
